@@ -63,6 +63,11 @@ SHAPES = [
     "{ Nodes { ... on A { ... on A { id @output(name: \"rid\") } } } }", "{ Nodes { ... on A { id @output(name: \"rid\") } ... on B { id } } }", "{ Nodes { ... on Ghost { id @output(name: \"rid\") } } }",
     "{ Nodes { ... on A @optional { id @output(name: \"rid\") } } }", "{ Nodes { ... on A @filter(op: \"=\", value: [\"$v\"]) { id @output(name: \"rid\") } } }", "{ Nodes { ... on Root { id @output(name: \"rid\") } } }",
     "{ Nodes { ... on Node { id @output(name: \"rid\") } } }", "{ OneA { ... on B { id @output(name: \"rid\") } } }", "{ OneA { ... on Node { id @output(name: \"rid\") } } }",
+    "{ Nodes { id { ... on A { id @output } } } }", "{ Nodes { id { id @output } } }", "{ Nodes { val @output { x } } }", "{ Nodes { __typename { ... on A { id @output } } } }",
+    "{ Nodes { a: next @fold @transform(op: \"count\") @output(name: \"x\") { id } peer @fold @transform(op: \"count\") @output(name: \"x\") { id } } }",
+    "{ Nodes { next @fold @transform(op: \"count\") @output(name: \"x\") { id @output(name: \"x\") } } }",
+    "{ Nodes { id @output(name: \"x\") next @fold @transform(op: \"count\") @output(name: \"x\") { id } } }",
+    "{ Nodes { next @fold @transform(op: \"count\") @output @output { id } } }", "{ Nodes { next @fold { id @output(name: \"x\") next @fold { id @output(name: \"x\") } } } }",
     "{ Nodes }", "{ Nodes { } }", "{ Nodes { id } }", "{ Nodes { id @output id @output } }", "{ Nodes { ghost @output } }", "{ Ghost { id @output } }", "{ Nodes { id { x } } }", "{ Nodes { next @output } }",
     "{ Nodes { next } }", "{ Nodes { next { } } }", "{ Nodes { id @output(name: \"rid\") next { next { next { next { next { next { next { next { id @output(name: \"deep\") } } } } } } } } } }",
     "{ Nodes { __typename @output } }", "{ Nodes { __typename @output __typename @output(name: \"t2\") } }", "{ __typename }", "{ __schema { types { name } } }", "{ Nodes { __ghost @output } }",
